@@ -1,4 +1,4 @@
 SPECIFICATION CSpec
-INVARIANT Conforms ObsMatches
+INVARIANT AllProps
 VIEW View
 CHECK_DEADLOCK FALSE
